@@ -615,8 +615,8 @@ structure Inv (s : St) : Prop where
   gclosed : GClosed s
 
 theorem init_inv (attrs : List Attr) (fs : List FState) : Inv (init attrs fs) := by
-  refine ⟨by simp [SeqInv, init, logStatus, statusOf], ⟨?_, ?_, ?_, ?_, ?_⟩, ?_, ?_⟩ <;>
-    simp [init, startTickets, ReplInv, BackInv]
+  refine ⟨by simp [SeqInv, init, logStatus, statusOf], ⟨?_, ?_, ?_, ?_, ?_⟩, ?_, ?_, ?_, ?_⟩ <;>
+    simp [init, startTickets, ReplInv, BackInv, GSeqInv, GClosed, seqStatus, openTicket, gstartTickets]
 
 theorem Inv.presRun : ∀ (os : List Op) (s s' : St), Inv s → MitmVerif.C53.run s os = some s' → Inv s' := by
   intro os
